@@ -151,6 +151,176 @@ func isSuccessReturn(ret *ssa.Return) bool {
 	return true
 }
 
+// maySucceedIgnoring: the return reports an error that has nothing to do with the
+// error under test and that may well be nil — `return other()` / `return x, otherErr`
+// reached while v may be non-nil drops v just like `return nil`.  A result that is v,
+// an alias, or computed from v (wrap(v), fmt.Errorf("%w", v), NewError(v.Error()))
+// makes the return a failing one.
+func maySucceedIgnoring(ret *ssa.Return, al map[ssa.Value]bool) bool {
+	n := 0
+	for _, r := range ret.Results {
+		if !isErrLike(r.Type()) {
+			continue
+		}
+		n++
+		if derivedFrom(r, al, 6, map[ssa.Value]bool{}) {
+			return false
+		}
+		if !mayBeNilErr(r, 3, map[ssa.Value]bool{}) {
+			return false
+		}
+	}
+	return n > 0
+}
+
+func derivedFrom(v ssa.Value, al map[ssa.Value]bool, depth int, seen map[ssa.Value]bool) bool {
+	if al[v] {
+		return true
+	}
+	if depth == 0 || seen[v] {
+		return false
+	}
+	seen[v] = true
+	if ld, ok := v.(*ssa.UnOp); ok && ld.Op == token.MUL {
+		if a, ok := ld.X.(*ssa.Alloc); ok && a.Referrers() != nil {
+			for _, r := range *a.Referrers() {
+				if st, ok := r.(*ssa.Store); ok && st.Addr == a && derivedFrom(st.Val, al, depth-1, seen) {
+					return true
+				}
+			}
+		}
+	}
+	in, ok := v.(ssa.Instruction)
+	if !ok {
+		return false
+	}
+	for _, op := range in.Operands(nil) {
+		if *op != nil && derivedFrom(*op, al, depth-1, seen) {
+			return true
+		}
+	}
+	return false
+}
+
+// mayBeNilErr: can this error-typed value be nil?  Only shapes that are understood
+// answer yes (nil constant, a call of a function that has a success return or is
+// unknown, a phi/cell with such a value); everything else counts as non-nil so that
+// the rule does not guess.
+func mayBeNilErr(v ssa.Value, depth int, seen map[ssa.Value]bool) bool {
+	if isNilConst(v) {
+		return true
+	}
+	if seen[v] {
+		return false
+	}
+	seen[v] = true
+	switch x := v.(type) {
+	case *ssa.Phi:
+		for _, e := range x.Edges {
+			if mayBeNilErr(e, depth, seen) {
+				return true
+			}
+		}
+	case *ssa.Extract:
+		if c, ok := x.Tuple.(*ssa.Call); ok {
+			return callMayReturnNil(c, x.Index, depth)
+		}
+	case *ssa.Call:
+		return callMayReturnNil(x, 0, depth)
+	case *ssa.ChangeInterface:
+		return mayBeNilErr(x.X, depth, seen)
+	case *ssa.UnOp:
+		if a, ok := x.X.(*ssa.Alloc); ok && x.Op == token.MUL && a.Referrers() != nil {
+			for _, r := range *a.Referrers() {
+				if st, ok := r.(*ssa.Store); ok && st.Addr == a && mayBeNilErr(st.Val, depth, seen) {
+					return true
+				}
+			}
+		}
+	}
+	return false
+}
+
+func callMayReturnNil(c *ssa.Call, idx int, depth int) bool {
+	o := ssaCalleeObj(c)
+	if o != nil {
+		switch objPkgPath(o) + "." + o.Name() {
+		case "fmt.Errorf", "errors.New":
+			return false
+		}
+	}
+	callee := c.Call.StaticCallee()
+	if callee == nil || len(callee.Blocks) == 0 {
+		return true // interface method / external: unknown, an error result can be nil
+	}
+	if depth == 0 {
+		return false
+	}
+	for _, b := range callee.Blocks {
+		for _, in := range b.Instrs {
+			if ret, ok := in.(*ssa.Return); ok && idx < len(ret.Results) {
+				if mayBeNilErr(ret.Results[idx], depth-1, map[ssa.Value]bool{}) {
+					return true
+				}
+			}
+		}
+	}
+	return false
+}
+
+// exclusiveSiblings returns the other results of v's call for which the (static, own)
+// callee guarantees "this result non-nil ⇒ error result nil": on every return of the
+// callee one of the two is the nil constant.
+func exclusiveSiblings(v ssa.Value) map[ssa.Value]bool {
+	ex, ok := v.(*ssa.Extract)
+	if !ok {
+		return nil
+	}
+	c, ok := ex.Tuple.(*ssa.Call)
+	if !ok || c.Referrers() == nil {
+		return nil
+	}
+	callee := c.Call.StaticCallee()
+	if callee == nil || len(callee.Blocks) == 0 {
+		return nil
+	}
+	out := map[ssa.Value]bool{}
+	for _, r := range *c.Referrers() {
+		sib, ok := r.(*ssa.Extract)
+		if !ok || sib.Index == ex.Index || !isNilable(sib.Type()) {
+			continue
+		}
+		good, n := true, 0
+		for _, b := range callee.Blocks {
+			for _, in := range b.Instrs {
+				ret, ok := in.(*ssa.Return)
+				if !ok {
+					continue
+				}
+				n++
+				if len(ret.Results) <= ex.Index || len(ret.Results) <= sib.Index || !(isNilConst(ret.Results[ex.Index]) || isNilConst(ret.Results[sib.Index])) {
+					good = false
+				}
+			}
+		}
+		if good && n > 0 {
+			out[sib] = true
+			for a := range aliasesOf(sib) {
+				out[a] = true
+			}
+		}
+	}
+	return out
+}
+
+func isNilable(t types.Type) bool {
+	switch t.Underlying().(type) {
+	case *types.Pointer, *types.Interface, *types.Map, *types.Slice, *types.Chan, *types.Signature:
+		return true
+	}
+	return false
+}
+
 func hasErrResult(fn *ssa.Function) bool {
 	res := fn.Signature.Results()
 	for i := 0; i < res.Len(); i++ {
@@ -192,8 +362,20 @@ func checkErrValueCut(ec *errCall, v ssa.Value, cut func(*ssa.If) int) errVerdic
 	al := aliasesOf(v)
 	fn := ec.fn
 	start := ec.call.(ssa.Instruction)
+	// exclusive siblings: another result of the same call that the callee sets to nil
+	// on every return that carries an error (`def, err := Get(); if def != nil {…}`
+	// knows err == nil on the non-nil side of def)
+	excl := exclusiveSiblings(v)
 	isCheckOf := func(cond ssa.Value) (ne bool, ok bool) {
-		return isNilCheck(cond, func(x ssa.Value) bool { return al[x] })
+		if ne, ok := isNilCheck(cond, func(x ssa.Value) bool { return al[x] }); ok {
+			return ne, ok
+		}
+		if len(excl) > 0 {
+			if ne, ok := isNilCheck(cond, func(x ssa.Value) bool { return excl[x] }); ok {
+				return !ne, true // sibling non-nil ⇒ error nil
+			}
+		}
+		return false, false
 	}
 	// "used": v (or an alias) is an operand of a return, a call, a store to non-local
 	// memory, a send … anything but a nil comparison.
@@ -240,7 +422,7 @@ func checkErrValueCut(ec *errCall, v ssa.Value, cut func(*ssa.If) int) errVerdic
 			for ; i < len(b.Instrs); i++ {
 				in := b.Instrs[i]
 				if ret, ok := in.(*ssa.Return); ok {
-					if isSuccessReturn(ret) {
+					if isSuccessReturn(ret) || maySucceedIgnoring(ret, al) {
 						bad = ret
 					}
 					return
